@@ -193,6 +193,18 @@ def body(ctx):
             if rr.outcomes[1].kind == 'ret' and (got is None or len(got) != size):
                 ctx.violation('C15.PeerGetsAll', dict(kind='None-returning transport', mode=mode, maxdata=md, size=size, arrived=None if got is None else len(got)))
     judge(ctx, runs, 'in-memory, bulk_write returns None, messages above 64 KiB', f1)
+    # 2b''. short writes on a slow transport: every call takes (virtual) time, so that a whole buffer needs longer than the transport
+    #       timeout although no single call does - the buffer must still arrive completely (or the call raises)
+    runs = []
+    for mode in ('sync', 'async'):
+        for (cap, tick, tt) in ((6, 0.02, 0.05), (1, 0.01, 0.02), (10, 0.3, 0.5), (100, 0.02, 0.05)):
+            spec = dict(seed=ctx.seed + cap, maxdata=4096, rid='random', frag='whole', tick=tick,
+                        ops=[dict(api='shell', decode=False, cmd='echo hello', chunks=[b'hello'.hex(), b'\n'.hex()], transport_timeout_s=tt, read_timeout_s=5.0),
+                             dict(api='push', path='/q', size=600, src='bytesio', mtime=7, transport_timeout_s=tt, read_timeout_s=5.0),
+                             dict(api='stat', path='/q', transport_timeout_s=tt, read_timeout_s=5.0)])
+            rr = scen.run(dict(spec, connect_kw=dict(read_timeout_s=5.0)), mode, wcap=lambda n, c=cap: min(n, c))
+            runs.append((mode, spec, ['always %d' % cap, 'every call takes %.2f s, transport timeout %.2f s' % (tick, tt)], rr))
+    judge(ctx, runs, 'in-memory short writes on a slow transport', f1)
     # 2c. a write fails in the middle of a buffer (after a short write) and the transport works again: either the call raises, or
     #     the peer still got every byte - never a silent gap
     nruns = 0
